@@ -20,9 +20,11 @@ import (
 // C10 - parsing and evaluation are total: no panics, invalid input is rejected (language / glue part).
 //
 // Case line:   Q <stream> <runes>            runes: the filter as code points, hex, '.'-separated ('-' = empty);
-//	                                          xHH = one raw byte that is not part of a well-formed UTF-8 sequence (the
-//	                                          Go string holds exactly that byte; the ANTLR input stream - []rune(string) -
-//	                                          and therefore the lexer and the lexer model see U+FFFD for it)
+//
+//	xHH = one raw byte that is not part of a well-formed UTF-8 sequence (the
+//	Go string holds exactly that byte; the ANTLR input stream - []rune(string) -
+//	and therefore the lexer and the lexer model see U+FFFD for it)
+//
 // Observation: Q <tokens> e<lexer errors> <verdicts> <pooled> <entries>
 //
 //	tokens    k:start:len,...  of the real lexer (zitiql.NewZitiQlLexer), positions in runes, '-' if none
